@@ -3,7 +3,9 @@
 P="$1"; N="$2"; S="${3:-/tmp/seed/$P/out}"; M="${4:-$N}"; T=/verif/seeded/$P-$M
 res=$(/verif/verify_seed.sh $S $N 2>&1 | tail -1)
 case "$res" in
-  *"clean_demo=[test result: ok"*"suite=[8[34] passed 0 failed]"*"mutated_demo=[test result: FAILED"*) ok=1;;
+  *"clean_demo=[test result: ok"*"suite=[83 passed 0 failed]"*"mutated_demo=[test result: FAILED"*) ok=1;;
+  # a change may add a unit test of its own inside src/
+  *"clean_demo=[test result: ok"*"suite=[84 passed 0 failed]"*"mutated_demo=[test result: FAILED"*) ok=1;;
   *) ok=0;;
 esac
 if [ $ok -ne 1 ]; then echo "NOT CONFIRMED $P-$N: $res"; exit 1; fi
